@@ -480,3 +480,43 @@ PROPS["C11"] = {
         {"name": "rapid", "mode": "rapid", "run": "TestC11Rapid", "race": True, "checks": {"quick": 2400, "thorough": 48000}, "timeout": {"quick": 400, "thorough": 3600}},
     ],
 }
+
+PROPS["C10"] = {
+    "level": "fault_enumeration",
+    "rule": ("For each generated (new Spec, encoding json/yaml, initial state in {no directory, empty directory, previous file with other valid "
+             "content, previous file plus bystander files}): syscalls unit - the helper `vhelper write` (main goroutine locked to the main "
+             "thread) runs under strace; a calibration run on exactly that initial state lists every system call of the writer that touches "
+             "the Spec directory (by path or through a descriptor opened there: newfstatat, mkdirat, openat, write, close, openat dir, "
+             "renameat2, close); then for every such call k one run in which the writer is killed (SIGKILL) on entry to call k and one run "
+             "per errno in {ENOSPC, EIO, EACCES, EMFILE} injected into call k; every run's own trace is parsed and the run is judged only if "
+             "the fault landed on the intended call (others are counted as excluded). Because the directory only changes at system calls, "
+             "'killed before call k' is what a concurrent reader sees between calls k-1 and k. offsets unit - RLIMIT_FSIZE = n in the helper "
+             "for n over all offsets 0..len+1 with stride 7 (quick) / 1 (thorough): a genuine partial write. events unit - raw inotify stream "
+             "of the directory during WriteSpec: no MODIFY / CLOSE_WRITE under a .json/.yaml name, no temporary entry created under such a "
+             "name, no DELETE of the target. readers unit - 4 ReadSpec loops and 2 refreshing caches against a writer alternating two "
+             "contents (schedule-random). Oracle everywhere (c10Observe): under the target name either no file (only if none before), or a "
+             "file ReadSpec loads as exactly the previous Spec (bytes unchanged) or exactly the new Spec; no other entry under a Spec name; "
+             "bystanders byte-identical; a cache refresh over the directory reports no error; success reported => new content present. "
+             "Non-trivial iff the fault lies strictly after the first and not after the last directory-changing call (resp. the write is cut "
+             "strictly inside the data) with a previous file present; distinct = distinct (Spec, encoding, initial state, call, fault)."),
+    "assumptions": ["crash = death of the writer process; durability across power loss (unsynced page cache) is outside the statement",
+                    "leftover spec.*.tmp files are admissible (never loaded); counted, not judged",
+                    "strace must be able to attach (ptrace); otherwise the syscalls unit is skipped and labelled and the other three units still run"],
+    "manifest": {
+        "text": ("Complete enumeration of the writer's crash points and of injected failures at the system-call boundary for each generated "
+                 "(Spec, encoding, initial state), every write-failure offset, the event stream seen by watchers, plus randomized reader "
+                 "stress. The set of Specs and initial states is sampled; the crash points per sample are exhaustive."),
+        "note": "trusted: strace's fault injection and trace (each run is re-validated from its own trace), the helper being single-threaded in its file-system calls, ReadSpec as the reader",
+        "technique": "property-based fault / crash-point enumeration at the system-call boundary (strace tampering, RLIMIT_FSIZE), inotify event-stream invariant, randomized reader stress; oracle = old-or-new-complete invariant",
+    },
+    "helpers": ("vhelper",),
+    "health_optional_if": {"env:strace-unavailable-skipped": ["mode:", "call:", "writer-killed"]},
+    "health": {"quick": {"mode:signal=SIGKILL": 100, "mode:error=ENOSPC": 100, "call:renameat2": 50, "call:write": 50, "call:openat": 50, "writer-killed": 100,
+                         "offset:partial": 300, "initial:old-file": 100, "stress": 2}},
+    "units": [
+        {"name": "syscalls", "mode": "rapid", "run": "TestC10Syscalls", "checks": {"quick": 96, "thorough": 2400}},
+        {"name": "offsets", "mode": "rapid", "run": "TestC10WriteOffsets", "checks": {"quick": 48, "thorough": 480}, "env": {"VERIF_C10_OFFSET_STRIDE": {"quick": 7, "thorough": 1}}},
+        {"name": "events", "mode": "rapid", "run": "TestC10Events", "checks": {"quick": 3200, "thorough": 64000}},
+        {"name": "readers", "mode": "plain", "run": "TestC10Readers", "race": True, "env": {"VERIF_C10_STRESS_MS": {"quick": 4000, "thorough": 60000}}},
+    ],
+}
